@@ -35,7 +35,8 @@ RULE = ("random content-stream programs over m l c v y h re / S s f F f* B B* b 
         "of 2-4 pages run through ONE interpreter (as extract_pages does) whose pages end in a dangling state "
         "(unpainted segments / closed sub-path / clip rectangle without n / lone m / Bezier / segment after h, "
         "unmatched q, changed width, dash, colours, CTM, colour spaces) - every page must show exactly what its "
-        "own program demands; operators "
+        "own program demands; pages that invoke (between their path objects) a form XObject whose content ends "
+        "in the same dangling states (tie only: `Do` leaks nothing into the page); operators "
         "with the right operand count and a non-numeric operand (name, array) at every position; a case "
         "is non-trivial when it is a distinct program that paints >= 1 sub-path with >= 1 segment under a "
         "non-identity CTM or a non-default graphics state; `wild` programs (wrong operand counts/types, "
@@ -313,8 +314,16 @@ def run_impl(cases, shared: bool = False) -> List[Any]:
     c0 = cases[0]
     res, extra = cs_resource(c0["cs"])
     page_extra = {"Rotate": c0["rotate"]} if c0["rotate"] else {}
+    resources: Dict[str, Any] = {"ColorSpace": res} if res else {}
+    if c0.get("form") is not None:
+        # a form XObject /Fm0 (object 9) whose content ends in a dangling state
+        extra = dict(extra)
+        extra[9] = W.Stream({"Type": "XObject", "Subtype": "Form", "BBox": [0, 0, 200, 200],
+                             "Matrix": [F(x) for x in c0.get("form_matrix", ["1", "0", "0", "1", "0", "0"])]},
+                            to_content(c0["form"]))
+        resources["XObject"] = {"Fm0": W.Ref(9)}
     data = W.simple_doc([to_content(c["ops"], i) for i, c in enumerate(cases)],
-                        resources={"ColorSpace": res} if res else {},
+                        resources=resources,
                         mediabox=[F(x) for x in c0["mediabox"]],
                         extra_objs=extra, page_extra=page_extra)
     doc = PDFDocument(PDFParser(io.BytesIO(data)))
@@ -1229,6 +1238,36 @@ def check_pages(ctx: C.Ctx, cases: List[Dict[str, Any]], seen_sigs: set) -> None
                     report_pages_failure(ctx, cases, k, d)
 
 
+# --------------------------------------------------------------------------- form XObjects ending in a dangling state
+
+def gen_form_doc(rng) -> Dict[str, Any]:
+    """Document set-up + a form XObject /Fm0 whose content changes the graphics state and ends with an
+    unpainted path (and possibly an unmatched q): nothing of it may leak into the page that invokes it."""
+    doc = gen_doc(rng)
+    kind = rng.choice([k for k in DANGLING if k != "none"])
+    form = gen_dangling_case(rng, dict(doc, cs={}), kind)["ops"]
+    doc["form"] = form
+    doc["form_kind"] = kind
+    doc["form_matrix"] = [num(x) for x in gen_matrix(rng)]
+    return doc
+
+
+def gen_form_case(rng, doc) -> Dict[str, Any]:
+    case = gen_case(rng, doc)
+    ops = case["ops"]
+    # `Do` only between path objects (ISO: not inside path construction)
+    slots = [0] + [i + 1 for i, o in enumerate(ops) if o[0] in PAINT or o[0] == "n"]
+    out = []
+    chosen = set(rng.sample(slots, min(len(slots), rng.choice([1, 1, 2]))))
+    for i, o in enumerate(ops):
+        if i in chosen:
+            out.append(["Do", "/Fm0"])
+        out.append(o)
+    if len(ops) in chosen:
+        out.append(["Do", "/Fm0"])
+    return dict(case, ops=out, form=doc["form"], form_matrix=doc["form_matrix"], form_kind=doc["form_kind"])
+
+
 # --------------------------------------------------------------------------- running a batch
 
 def check_batch(ctx: C.Ctx, cases: List[Dict[str, Any]], in_domain: bool, seen_sigs: set) -> None:
@@ -1261,6 +1300,8 @@ def check_batch(ctx: C.Ctx, cases: List[Dict[str, Any]], in_domain: bool, seen_s
             ctx.branch("op:" + k)
         if not dom and path_without_m(case["ops"]):
             ctx.branch("wild:path-without-m")
+        if case.get("form") is not None and "Do" in opnames:
+            ctx.branch("form-dangling:" + case.get("form_kind", "?") + (":page-paints" if painted else ":empty"))
         for o in case["ops"]:
             if (o[0] in NUM_ARITY or o[0] in ("sc", "scn", "SC", "SCN")) and not all(is_num(x) for x in o[1:]):
                 pos = [i for i, x in enumerate(o[1:]) if not is_num(x)]
@@ -1345,6 +1386,13 @@ def run(ctx: C.Ctx) -> None:
         cases = [gen_dangling_case(rng, doc, kinds[i]) if i < npages - 1 or rng.random() < 0.3
                  else dict(gen_case(rng, doc), dangling="none") for i in range(npages)]
         check_pages(ctx, cases, seen)
+    # form XObjects whose content ends in a dangling state, invoked between the page's path objects (tie only:
+    # the model says `Do` consumes its operand and changes nothing the page can see at top level)
+    for rep in range(ctx.n(10, 200)):
+        if not ctx.time_left():
+            break
+        doc = gen_form_doc(rng)
+        check_batch(ctx, [gen_form_case(rng, doc) for _ in range(6)], False, seen)
     ndocs = ctx.n(240, 6000)
     per = 12
     for di in range(ndocs):
